@@ -37,6 +37,11 @@ type Workload struct {
 	// mode), the schedule in which "take the snapshot AND its waiters in one
 	// critical section" matters.
 	LockPauseUS int `json:"lock_pause_us,omitempty"`
+	// BuilderIDs non-empty: the index is first made by the offline builder
+	// (bleve.NewBuilder) holding these ids with version 0, and then opened and used
+	// online (ScorchDisk.tla, BuilderBase: one recorded snapshot whose only segment
+	// has an id that is not the number of its file).
+	BuilderIDs []string `json:"builder_ids,omitempty"`
 }
 
 var idSpace = []string{"a", "b", "c", "d"}
@@ -163,6 +168,31 @@ func OpenScorch(indexDir string, kv map[string]interface{}) (bleve.Index, error)
 		cfg[k] = v
 	}
 	return bleve.NewUsing(indexDir, bleve.NewIndexMapping(), scorch.Name, scorch.Name, cfg)
+}
+
+// OpenWorkload creates the index of a workload: empty, or made by the offline
+// builder and then opened for online use.
+func OpenWorkload(indexDir string, wl Workload) (bleve.Index, error) {
+	if len(wl.BuilderIDs) == 0 {
+		return OpenScorch(indexDir, wl.KVConfig)
+	}
+	b, err := bleve.NewBuilder(indexDir, bleve.NewIndexMapping(), map[string]interface{}{"buildPathPrefix": filepath.Dir(indexDir)})
+	if err != nil {
+		return nil, err
+	}
+	for _, id := range wl.BuilderIDs {
+		if err := b.Index(id, DocVer(0)); err != nil {
+			return nil, err
+		}
+	}
+	if err := b.Close(); err != nil {
+		return nil, err
+	}
+	cfg := map[string]interface{}{}
+	for k, v := range wl.KVConfig {
+		cfg[k] = v
+	}
+	return bleve.OpenUsing(indexDir, cfg)
 }
 
 // WithMarker makes every batch also write the marker document "m" (version =
